@@ -91,6 +91,9 @@ func genericRun(sp stagePlan) func(rep *Report, def *propDef) {
 		if sp.extra != nil {
 			sp.extra(rep, def)
 		}
+		if sp.traces != nil && (rep.Tier == "thorough" || rep.Prop == "C01" || rep.Prop == "C07") {
+			bindingSelfTest(rep)
+		}
 	}
 }
 
